@@ -119,7 +119,7 @@ func bigCasesOf(gr *group, S int) []*tcase {
 	}
 	var modes []string
 	switch gr.Path {
-	case "put", "putw", "mpw1":
+	case "put":
 		modes = []string{"whole", "nocl"} // Content-Length known / unknown
 	case "receive":
 		modes = []string{"whole"}
